@@ -12,6 +12,9 @@ import IsoVerif.Lemmas.Jaccard
 import IsoVerif.Lemmas.Merge
 import IsoVerif.Lemmas.BinSearchRev
 import IsoVerif.Lemmas.Positions
+import IsoVerif.Lemmas.MergeSorted
+import IsoVerif.Lemmas.Exons
+import IsoVerif.Lemmas.Truncate
 
 namespace IsoVerif.Props.C19Lists
 open IsoVerif.Gen IsoVerif.Model IsoVerif.Lemmas
@@ -106,6 +109,39 @@ theorem merge_empty : mergeRanges [] [] = none := by decide +kernel
 
 example : mergeRanges [(1, 5), (10, 12)] [(4, 11), (20, 21)] = some [(1, 12), (20, 21)] := by decide +kernel
 
+/-- the blocks returned by `merge_ranges` on sorted disjoint lists are again sorted, pairwise disjoint and well
+    formed: every block lies strictly left of every later one, so starts increase strictly and no block is nested in
+    (or even overlaps) another -/
+theorem merge_sorted (l1 l2 : List Iv) (h1 : SD l1) (h2 : SD l2) (w1 : WFl l1) (w2 : WFl l2)
+    (res : List Iv) (hres : mergeRanges l1 l2 = some res) :
+    SD res ∧ WFl res ∧
+      res.Pairwise (fun x y => x.1 < y.1 ∧ x.2 < y.1 ∧ contains x y = false ∧ contains y x = false ∧
+        overlaps x y = false) := by
+  simp only [mergeRanges] at hres
+  split at hres
+  · rename_i acc hacc
+    split at hres
+    · cases hres
+    · injection hres with hres; subst hres
+      obtain ⟨hr, hw⟩ := mergeLoop_sorted l1 false l2 false [] h1 h2 w1 w2 trivial (fun r hr => by cases hr)
+        (by simp) (by simp) (by simp) (by intro _ _; simp [Front]) (by simp) (by simp) acc hacc
+      have hsd := SD_reverse_of_RSD acc hr
+      have hwf : WFl acc.reverse := fun r hr' => hw r (by simpa using hr')
+      refine ⟨hsd, hwf, ?_⟩
+      have hp := SD_pairwise _ hsd hwf
+      rw [List.pairwise_iff_forall_sublist] at hp ⊢
+      intro x y hxy
+      have hlt := hp hxy
+      have hx := hwf x (hxy.subset (by simp))
+      have hy := hwf y (hxy.subset (by simp))
+      simp only [contains, overlaps, Bool.and_eq_false_iff, decide_eq_false_iff_not, Bool.not_eq_false',
+        Bool.or_eq_true, decide_eq_true_eq]
+      omega
+  · cases hres
+
+example : SD [(1, 5), (10, 12)] ∧ SD [(4, 11), (20, 21)] ∧
+    mergeRanges [(1, 5), (10, 12)] [(4, 11), (20, 21)] = some [(1, 12), (20, 21)] := by decide +kernel
+
 /-! ### prefix / suffix sums -/
 
 /-- `lenBelow r p` / `lenAbove r p` (Lemmas/Lists.lean) are the numbers of positions of `r` that are `< p` / `> p` -/
@@ -148,6 +184,169 @@ theorem junctions_skip_touching (a b : Iv) (t : List Iv) (h : ¬ a.2 + 1 < b.1) 
 example : Gapped [(1, 5), (10, 12), (20, 30)] ∧
     getExons (1, 30) (junctionsFromBlocks [(1, 5), (10, 12), (20, 30)]) = [(1, 5), (10, 12), (20, 30)] := by
   refine ⟨by simp [Gapped], by decide⟩
+
+/-! ### single exons from the junction list
+`region` = (start of the first exon, end of the last exon), `junctions` = `junctions_from_blocks` of a gapped exon list. -/
+
+/-- `get_exon(region, junctions, i)` is exon `i` (needs ≥ 2 exons: with no junction the code indexes an empty list) -/
+theorem get_exon_spec (ex : List Iv) (f t : Iv) (h : Gapped ex) (hf : ex.head? = some f) (ht : ex.getLast? = some t)
+    (h2 : 2 ≤ ex.length) (i : Nat) (hi : i < ex.length) :
+    getExon (f.1, t.2) (junctionsFromBlocks ex) (i : Int) = ex[i]? :=
+  getExon_junctions ex f t h hf ht h2 i hi
+
+/-- negative positions count from the end: position `−k` (1 ≤ k ≤ |ex|) is exon `|ex| − k` -/
+theorem get_exon_neg_spec (ex : List Iv) (f t : Iv) (h : Gapped ex) (hf : ex.head? = some f) (ht : ex.getLast? = some t)
+    (h2 : 2 ≤ ex.length) (k : Nat) (h0 : 0 < k) (hk : k ≤ ex.length) :
+    getExon (f.1, t.2) (junctionsFromBlocks ex) (-(k : Int)) = ex[ex.length - k]? := by
+  have hn := junctions_length ex h
+  rw [getExon_neg _ _ k h0 (by omega), hn]
+  have : ex.length - 1 + 1 - k = ex.length - k := by omega
+  rw [this]
+  exact getExon_junctions ex f t h hf ht h2 _ (by omega)
+
+/-- a position beyond the last exon violates the `assert` -/
+theorem get_exon_out_of_range (region : Iv) (junctions : List Iv) (i : Int) (hi : (junctions.length : Int) < i) :
+    getExon region junctions i = none := by
+  simp [getExon, hi]
+
+/-- a single-exon read has no junction: `get_exon` raises IndexError (so does the model) -/
+theorem get_exon_single (a : Iv) (i : Int) : getExon (a.1, a.2) (junctionsFromBlocks [a]) i = none := by
+  have hnil : ∀ x : Int, pyGet? ([] : List Iv) x = none := by
+    intro x; simp only [pyGet?, List.length_nil]; split
+    · simp
+    · split <;> simp
+  simp only [junctionsFromBlocks, getExon, hnil, Option.map_none, ite_self]
+
+/-- `get_preceding_exon_from_junctions(region, junctions, i)` is exon `i` — the exon before intron `i`; `i = |junctions|`
+    gives the last exon (also for a single-exon read) -/
+theorem get_preceding_exon_spec (ex : List Iv) (f t : Iv) (h : Gapped ex) (hf : ex.head? = some f)
+    (ht : ex.getLast? = some t) (i : Nat) (hi : i < ex.length) :
+    getPrecedingExon (f.1, t.2) (junctionsFromBlocks ex) (i : Int) = ex[i]? :=
+  getPrecedingExon_junctions ex f t h hf ht i hi
+
+/-- `get_following_exon_from_junctions(region, junctions, i)` is exon `i + 1` — the exon after intron `i` -/
+theorem get_following_exon_spec (ex : List Iv) (f t : Iv) (h : Gapped ex) (hf : ex.head? = some f)
+    (ht : ex.getLast? = some t) (i : Nat) (hi : i + 1 < ex.length) :
+    getFollowingExon (f.1, t.2) (junctionsFromBlocks ex) (i : Int) = ex[i + 1]? :=
+  getFollowingExon_junctions ex f t h hf ht i hi
+
+/-- intron position `−1` (the code's special case) is the last intron: the following exon is the last exon -/
+theorem get_following_exon_last (ex : List Iv) (f t : Iv) (h : Gapped ex) (hf : ex.head? = some f)
+    (ht : ex.getLast? = some t) (h2 : 2 ≤ ex.length) :
+    getFollowingExon (f.1, t.2) (junctionsFromBlocks ex) (-1) = some t := by
+  have hn := junctions_length ex h
+  have hlast := getElem?_last ex t ht
+  obtain ⟨a, ha⟩ : ∃ a, ex[ex.length - 2]? = some a := ⟨ex[ex.length - 2], List.getElem?_eq_getElem (by omega)⟩
+  have hlast' : ex[ex.length - 2 + 1]? = some t := by
+    have : ex.length - 2 + 1 = ex.length - 1 := by omega
+    rw [this]; exact hlast
+  have hj := junctions_getElem ex h (ex.length - 2) a t ha hlast'
+  have hg : pyGet? (junctionsFromBlocks ex) (-1) = some (a.2 + 1, t.1 - 1) := by
+    have := pyGet?_neg (junctionsFromBlocks ex) 1 (by omega) (by omega)
+    rw [hn] at this
+    have e : ex.length - 1 - 1 = ex.length - 2 := by omega
+    rw [e, hj] at this
+    simpa using this
+  simp only [getFollowingExon, or_true, if_true, hg]
+  congr 1; ext <;> simp
+
+example : Gapped [(1, 5), (10, 12), (20, 30)] ∧
+    getExon (1, 30) (junctionsFromBlocks [(1, 5), (10, 12), (20, 30)]) 1 = some (10, 12) ∧
+    getExon (1, 30) (junctionsFromBlocks [(1, 5), (10, 12), (20, 30)]) (-1) = some (20, 30) ∧
+    getPrecedingExon (1, 30) (junctionsFromBlocks [(1, 5), (10, 12), (20, 30)]) 2 = some (20, 30) ∧
+    getFollowingExon (1, 30) (junctionsFromBlocks [(1, 5), (10, 12), (20, 30)]) 0 = some (10, 12) := by
+  refine ⟨by simp [Gapped], by decide, by decide, by decide, by decide⟩
+
+/-! ### extra_exon_percentage -/
+
+/-- numerator = number of read positions outside the isoform region (per exon: positions `< reg.1` plus positions
+    `> reg.2`), denominator = total read length; raises (ZeroDivisionError) exactly when the total length is 0 -/
+theorem extra_exon_percentage_spec (reg : Iv) (exons : List Iv) (w : WFl exons) :
+    extraExonPercentage reg exons =
+      if intervalsTotalLength exons = 0 then none
+      else some ((exons.map (fun e => lenBelow e reg.1 + lenAbove e reg.2)).sum, intervalsTotalLength exons) := by
+  simp only [extraExonPercentage, extraExonLoop_eq reg exons w]
+
+/-- a non-empty well-formed read never divides by zero -/
+theorem extra_exon_percentage_defined (reg : Iv) (exons : List Iv) (w : WFl exons) (hne : exons ≠ []) :
+    extraExonPercentage reg exons =
+      some ((exons.map (fun e => lenBelow e reg.1 + lenAbove e reg.2)).sum, intervalsTotalLength exons) := by
+  rw [extra_exon_percentage_spec reg exons w]
+  have := total_length_pos exons w hne
+  have h0 : ¬ intervalsTotalLength exons = 0 := by omega
+  simp only [h0, if_false]
+
+example : WFl [(1, 5), (10, 12), (20, 30)] ∧
+    extraExonPercentage (4, 24) [(1, 5), (10, 12), (20, 30)] = some (9, 19) := by
+  refine ⟨by decide, by decide⟩
+
+/-! ### truncate_read_to_polya (no caller in the pipeline) -/
+
+/-- no tail on either side: the read is returned unchanged -/
+theorem truncate_identity (exons : List Iv) (hne : exons ≠ []) : truncateReadToPolya exons (-1) (-1) = some exons := by
+  cases exons with
+  | nil => exact absurd rfl hne
+  | cons a rest =>
+    obtain ⟨t, ht⟩ : ∃ t, (a :: rest).getLast? = some t :=
+      ⟨(a :: rest).getLast (by simp), List.getLast?_eq_some_getLast (by simp)⟩
+    simp [truncateReadToPolya, ht]
+
+theorem truncate_empty (a t : Int) : truncateReadToPolya [] a t = none := rfl
+
+/-- polyA side only, tail position `P` inside the read span in the sense that `P − 1` is a read position (`P` lies in
+    an exon behind its first base, or directly behind an exon): the result is sorted, disjoint and well formed, starts
+    where the read starts, ends at `P`, and covers exactly the read positions `≤ P` plus `P` itself -/
+theorem truncate_polya_spec (exons : List Iv) (f t : Iv) (P : Int) (h : SD exons) (w : WFl exons)
+    (hf : exons.head? = some f) (ht : exons.getLast? = some t) (hP : P ≠ -1) (hin : cov exons (P - 1)) :
+    ∃ res, truncateReadToPolya exons P (-1) = some res ∧ SD res ∧ WFl res ∧
+      res.head?.map (·.1) = some f.1 ∧ res.getLast?.map (·.2) = some P ∧
+      ∀ p, cov res p ↔ (p ≤ P ∧ cov exons p) ∨ p = P :=
+  truncate_polya_aux exons f t P h w hf ht hP hin
+
+/-- polyT side only, `T + 1` a read position: the result starts at `T`, ends where the read ends and covers exactly
+    the read positions `≥ T` plus `T` itself -/
+theorem truncate_polyt_spec (exons : List Iv) (f t : Iv) (T : Int) (h : SD exons) (w : WFl exons)
+    (hf : exons.head? = some f) (ht : exons.getLast? = some t) (hT : T ≠ -1) (hin : cov exons (T + 1)) :
+    ∃ res, truncateReadToPolya exons (-1) T = some res ∧ SD res ∧ WFl res ∧
+      res.head?.map (·.1) = some T ∧ res.getLast?.map (·.2) = some t.2 ∧
+      ∀ p, cov res p ↔ (T ≤ p ∧ cov exons p) ∨ p = T :=
+  truncate_polyt_aux exons f t T h w hf ht hT hin
+
+example : SD [(1, 5), (10, 12), (20, 30)] ∧ WFl [(1, 5), (10, 12), (20, 30)] ∧ cov [(1, 5), (10, 12), (20, 30)] (11 - 1) ∧
+    truncateReadToPolya [(1, 5), (10, 12), (20, 30)] 11 (-1) = some [(1, 5), (10, 11)] ∧
+    cov [(1, 5), (10, 12), (20, 30)] (11 + 1) ∧
+    truncateReadToPolya [(1, 5), (10, 12), (20, 30)] (-1) 11 = some [(11, 12), (20, 30)] := by
+  refine ⟨by decide, by decide, ⟨(10, 12), by simp, by decide, by decide⟩, by decide,
+    ⟨(10, 12), by simp, by decide, by decide⟩, by decide⟩
+
+/-- polyA side, ANY tail position behind the first base of the read (`f.1 < P`; at or before it the code indexes
+    `read_exons[-1]` and returns an unsorted list): the result is sorted, disjoint, well formed, spans exactly
+    `[read start, P]`, keeps every read position `≤ P`, and any other position it covers lies in the stretch between
+    the end of the last exon starting before `P` and `P` (the last kept exon is stretched up to the tail) -/
+theorem truncate_polya_span (exons : List Iv) (f t : Iv) (P : Int) (h : SD exons) (w : WFl exons)
+    (hf : exons.head? = some f) (ht : exons.getLast? = some t) (hP : P ≠ -1) (hin : f.1 < P) :
+    ∃ res, truncateReadToPolya exons P (-1) = some res ∧ SD res ∧ WFl res ∧
+      res.head?.map (·.1) = some f.1 ∧ res.getLast?.map (·.2) = some P ∧
+      (∀ p, p ≤ P → cov exons p → cov res p) ∧
+      (∀ p, cov res p → p ≤ P ∧ (cov exons p ∨ ∀ e ∈ exons, e.1 < P → e.2 < p)) :=
+  truncate_polya_span_aux exons f t P h w hf ht hP hin
+
+/-- polyT side, ANY tail position before the last base of the read (`T < t.2`) -/
+theorem truncate_polyt_span (exons : List Iv) (f t : Iv) (T : Int) (h : SD exons) (w : WFl exons)
+    (hf : exons.head? = some f) (ht : exons.getLast? = some t) (hT : T ≠ -1) (hin : T < t.2) :
+    ∃ res, truncateReadToPolya exons (-1) T = some res ∧ SD res ∧ WFl res ∧
+      res.head?.map (·.1) = some T ∧ res.getLast?.map (·.2) = some t.2 ∧
+      (∀ p, T ≤ p → cov exons p → cov res p) ∧
+      (∀ p, cov res p → T ≤ p ∧ (cov exons p ∨ ∀ e ∈ exons, T < e.2 → p < e.1)) :=
+  truncate_polyt_span_aux exons f t T h w hf ht hT hin
+
+/-- the domain hypothesis of `truncate_polya_span` is needed: a polyA position at the first base makes the code read
+    `read_exons[-1]` through Python's negative index and return an unsorted list -/
+example : truncateReadToPolya [(1, 5), (10, 12), (20, 30)] 1 (-1) = some [(1, 5), (10, 12), (20, 1)] := by decide
+
+/-- outside the domain of `truncate_polya_spec` the function does not truncate to read positions: a tail position strictly inside an intron
+    stretches the neighbouring exon across the intron bases up to the tail (here 6 and 7 are not read positions) -/
+example : truncateReadToPolya [(1, 5), (10, 12)] 8 (-1) = some [(1, 8)] := by decide
 
 /-! ### binary search: termination, index safety and result -/
 
